@@ -1,12 +1,21 @@
 """C08 - pipeline property judged by spec/QuillContract.tla (flag ok08) through TLC trace validation (spec/TraceQuill.tla) of
 executions of the real frontend/backend recorded by harness/h_sys; scenario family in props/sysfam.py; implementation-shaped
-exploration in spec/Quill.tla."""
-import sysfam, qsys
+exploration in spec/Quill.tla. The dropped-message counter at the granularity of its atomic accesses (increment racing with the
+backend's test-and-reset): spec/CounterRA.tla with the protocol extracted from the code, replayed on the REAL backend thread and REAL
+log calls on a bounded dropping queue (tools/countermodel.py, harness/h_stop -DHSTOP_DROP)."""
+import json, os
+import sysfam, qsys, countermodel
 
 
 def run(ck):
+    countermodel.run_for(ck)
+    if os.environ.get("VERIF_PART") == "counter":
+        return
     sysfam.run_family(ck, "C08", 250 if ck.tier == "quick" else 3000)
 
 
 def replay(ck, path):
-    qsys.replay(path)
+    if json.loads(open(path).read())["replay"].get("harness") == "h_stop_drop":
+        countermodel.replay(path)
+    else:
+        qsys.replay(path)
